@@ -94,9 +94,14 @@ pub(crate) fn copy_term<T: CopierTarget>(
     let mut copy_term_state = CopyTermState::new(target, attr_var_policy);
     let old_threshold = copy_term_state.target.threshold();
 
-    copy_term_state.copy_term_impl(addr)?;
-    copy_term_state.copy_attr_var_lists()?;
+    // the forwarding cells left in the source term must be undone even
+    // when the copy runs out of memory half-way.
+    let copy_result = copy_term_state
+        .copy_term_impl(addr)
+        .and_then(|_| copy_term_state.copy_attr_var_lists());
+
     copy_term_state.unwind_trail();
+    copy_result?;
 
     let new_threshold = copy_term_state.target.threshold();
     copy_term_state.copy_pstrs()?;
